@@ -62,11 +62,14 @@ def cases(tier):
         out.append({'kind': 'StoryDelete', 'srcs': srcs})
         for packing in ('one',):      # several element_source tags are outside the MOS DTD: not schema-shaped
             out.append({'kind': 'EAStoryDelete', 'srcs': srcs, 'packing': packing})
+            # a story DELETE may carry an (ignored) element_target
+            out.append({'kind': 'EAStoryDelete', 'srcs': srcs, 'packing': packing, 'etgt': BLANK})
+            out.append({'kind': 'EAStoryDelete', 'srcs': srcs, 'packing': packing, 'etgt': 'D'})
             for t in tgt_s:
                 out.append({'kind': 'EAStoryMove', 'tgt': t, 'srcs': srcs, 'packing': packing})
         if len(srcs) == 2:
             out.append({'kind': 'EAStorySwap', 'srcs': srcs})
-            out.append({'kind': 'EAStorySwap', 'srcs': srcs, 'empty_target': True})
+            out.append({'kind': 'EAStorySwap', 'srcs': srcs, 'etgt': BLANK})
     for src in S_IDS[:1] + [BLANK]:
         for t in tgt_s:
             out.append({'kind': 'StoryMove', 'src': src, 'tgt': t})
